@@ -28,6 +28,7 @@ import (
 	"strings"
 
 	"github.com/inspirer/textmapper/compiler"
+	"github.com/inspirer/textmapper/syntax"
 )
 
 func init() {
@@ -53,6 +54,15 @@ type c14Arg struct {
 
 type c14Sym struct {
 	Term int // > 0: terminal id; 0: nonterminal reference
+	NT   int
+	Args []c14Arg
+	// Look != nil: a runtime lookahead predicate `(?= X<args> & !Y)` (predicate family; not representable in
+	// the index-level protocol of the Lean mirror, checked by the Go oracle only)
+	Look []c14LookRef
+}
+
+type c14LookRef struct {
+	Neg  bool
 	NT   int
 	Args []c14Arg
 }
@@ -92,6 +102,7 @@ type c14Gram struct {
 	NTs    []c14NT
 	Inputs []c14In
 	Feat   map[string]bool
+	Pred   bool // predicate family: contains `(?= …)` symbols
 }
 
 var c14ValText = []string{`"false"`, `"true"`, `"x"`}
@@ -172,6 +183,14 @@ func (g *c14Gram) TM(name string) string {
 					fmt.Fprintf(&sb, "'%s'", c14TermName(s.Term))
 					continue
 				}
+				if s.Look != nil {
+					var ps []string
+					for _, l := range s.Look {
+						ps = append(ps, map[bool]string{true: "!", false: ""}[l.Neg]+g.refText(l.NT, l.Args))
+					}
+					fmt.Fprintf(&sb, "(?= %s)", strings.Join(ps, " & "))
+					continue
+				}
 				sb.WriteString(g.NTs[s.NT].Name)
 				if len(s.Args) > 0 {
 					var as []string
@@ -205,6 +224,28 @@ func (g *c14Gram) TM(name string) string {
 		sb.WriteString(";\n")
 	}
 	return sb.String()
+}
+
+func (g *c14Gram) refText(nt int, args []c14Arg) string {
+	t := g.NTs[nt].Name
+	if len(args) == 0 {
+		return t
+	}
+	var as []string
+	for _, x := range args {
+		pn := g.Params[x.Param].Name
+		switch x.Style {
+		case 0:
+			as = append(as, map[bool]string{true: "+", false: "~"}[x.X == 1]+pn)
+		case 1:
+			as = append(as, fmt.Sprintf("%s: %v", pn, x.X == 1))
+		case 2:
+			as = append(as, fmt.Sprintf("%s: %s", pn, g.Params[x.X].Name))
+		default:
+			as = append(as, pn)
+		}
+	}
+	return t + "<" + strings.Join(as, ", ") + ">"
 }
 
 func (p *c14Pred) proto(out *[]string) {
@@ -365,7 +406,129 @@ func (g *c14Gram) callEnv(caller int, first bool, s c14Sym, env []int) []int {
 	return out
 }
 
+// ---- equation systems with runtime lookahead predicates and a position-based recogniser (predicate family) ----
+
+type c14LAp struct {
+	Neg bool
+	Key int
+}
+
+type c14Item struct {
+	Term int // > 0 terminal
+	Key  int // nonterminal key (when Term == 0 and LA == nil)
+	LA   []c14LAp
+}
+
+type c14Sys struct {
+	Alts [][][]c14Item
+}
+
+// plain: the keys reachable from predicate targets; ok = none of them contains a predicate (stratified).
+func (s *c14Sys) plain() (map[int]bool, bool) {
+	pl := map[int]bool{}
+	var stack []int
+	for _, alts := range s.Alts {
+		for _, alt := range alts {
+			for _, it := range alt {
+				for _, p := range it.LA {
+					if !pl[p.Key] {
+						pl[p.Key] = true
+						stack = append(stack, p.Key)
+					}
+				}
+			}
+		}
+	}
+	for len(stack) > 0 {
+		k := stack[len(stack)-1]
+		stack = stack[:len(stack)-1]
+		if k >= len(s.Alts) {
+			continue
+		}
+		for _, alt := range s.Alts[k] {
+			for _, it := range alt {
+				if it.LA != nil {
+					return pl, false
+				}
+				if it.Term == 0 && !pl[it.Key] {
+					pl[it.Key] = true
+					stack = append(stack, it.Key)
+				}
+			}
+		}
+	}
+	return pl, true
+}
+
+// ends computes, for every key and start position, the set of end positions (bit mask) of derivations over w;
+// `(?= X)` holds at a position iff some prefix of the remaining input is derived by X. Two strata: plain keys first.
+func (s *c14Sys) ends(w []int, pl map[int]bool) [][]uint32 {
+	n := len(w)
+	T := make([][]uint32, len(s.Alts))
+	for k := range T {
+		T[k] = make([]uint32, n+1)
+	}
+	pass := func(sel func(k int) bool) {
+		for ch := true; ch; {
+			ch = false
+			for k, alts := range s.Alts {
+				if !sel(k) {
+					continue
+				}
+				for i := 0; i <= n; i++ {
+					var res uint32
+					for _, alt := range alts {
+						cur := uint32(1) << uint(i)
+						for _, it := range alt {
+							var nxt uint32
+							for j := i; j <= n; j++ {
+								if cur&(1<<uint(j)) == 0 {
+									continue
+								}
+								switch {
+								case it.Term > 0:
+									if j < n && w[j] == it.Term {
+										nxt |= 1 << uint(j+1)
+									}
+								case it.LA != nil:
+									ok := true
+									for _, p := range it.LA {
+										m := p.Key < len(T) && T[p.Key][j] != 0
+										if m == p.Neg {
+											ok = false
+										}
+									}
+									if ok {
+										nxt |= 1 << uint(j)
+									}
+								default:
+									if it.Key < len(T) {
+										nxt |= T[it.Key][j]
+									}
+								}
+							}
+							cur = nxt
+							if cur == 0 {
+								break
+							}
+						}
+						res |= cur
+					}
+					if res|T[k][i] != T[k][i] {
+						T[k][i] |= res
+						ch = true
+					}
+				}
+			}
+		}
+	}
+	pass(func(k int) bool { return pl[k] })
+	pass(func(k int) bool { return !pl[k] })
+	return T
+}
+
 type c14Sem struct {
+	sys   c14Sys // the same system with predicate items (alts below has no entry for them)
 	keys  []string
 	index map[string]int
 	nts   []int
@@ -395,21 +558,39 @@ func (g *c14Gram) sem() *c14Sem {
 	for i := 0; i < len(s.keys) && i < 5000; i++ {
 		nt, env := s.nts[i], s.envs[i]
 		var alts [][]int
+		var sysAlts [][]c14Item
 		for _, a := range g.NTs[nt].Alts {
 			if a.Pred != nil && !a.Pred.eval(env) {
 				continue
 			}
 			rhs := []int{}
-			for k, sym := range a.RHS {
-				if sym.Term > 0 {
+			var items []c14Item
+			first := true // entryPoints skips predicates: the first real symbol starts the alternative
+			for _, sym := range a.RHS {
+				switch {
+				case sym.Term > 0:
 					rhs = append(rhs, sym.Term)
-				} else {
-					rhs = append(rhs, -(get(sym.NT, g.callEnv(nt, k == 0, sym, env)) + 1))
+					items = append(items, c14Item{Term: sym.Term})
+					first = false
+				case sym.Look != nil:
+					var la []c14LAp
+					for _, l := range sym.Look {
+						// lookahead FLAGS never flow into a predicate target (entryPoints does not look inside)
+						la = append(la, c14LAp{l.Neg, get(l.NT, g.callEnv(nt, false, c14Sym{NT: l.NT, Args: l.Args}, env))})
+					}
+					items = append(items, c14Item{LA: la})
+				default:
+					k := get(sym.NT, g.callEnv(nt, first, sym, env))
+					rhs = append(rhs, -(k + 1))
+					items = append(items, c14Item{Key: k})
+					first = false
 				}
 			}
 			alts = append(alts, rhs)
+			sysAlts = append(sysAlts, items)
 		}
 		s.alts = append(s.alts, alts)
+		s.sys.Alts = append(s.sys.Alts, sysAlts)
 		s.dead = append(s.dead, len(alts) == 0)
 	}
 	return s
@@ -560,7 +741,112 @@ func c14Renumber(gp *GenParser) string {
 	}
 	f[3] = strings.Join(is, ";")
 	f[0] = strconv.Itoa(myNT)
+	// 7th token (only when present): the lookahead nonterminals `sym:[n|p]target&…;…`
+	var las []string
+	for i, nt := range p.Nonterms {
+		if nt.Value == nil || nt.Value.Kind != syntax.Lookahead {
+			continue
+		}
+		var ps []string
+		for _, sub := range nt.Value.Sub {
+			neg := "p"
+			if sub.Kind == syntax.LookaheadNot {
+				neg = "n"
+				sub = sub.Sub[0]
+			}
+			ps = append(ps, neg+strconv.Itoa(ren(sub.Symbol)))
+		}
+		las = append(las, fmt.Sprintf("%d:%s", ren(realNT+i), strings.Join(ps, "&")))
+	}
+	if len(las) > 0 {
+		f = append(f, "la="+strings.Join(las, ";"))
+	}
 	return strings.Join(f, " ")
+}
+
+// c14RealSys: the compiled rules as a system with predicates (key = nonterminal symbol - NT).
+func c14RealSys(real *Gram, la string) c14Sys {
+	sys := c14Sys{Alts: make([][][]c14Item, real.NN)}
+	isLA := map[int]bool{}
+	if la != "" {
+		for _, e := range strings.Split(la, ";") {
+			lr := strings.SplitN(e, ":", 2)
+			if len(lr) != 2 {
+				continue
+			}
+			sym, _ := strconv.Atoi(lr[0])
+			var it c14Item
+			for _, pt := range strings.Split(lr[1], "&") {
+				if len(pt) < 2 {
+					continue
+				}
+				t, _ := strconv.Atoi(pt[1:])
+				it.LA = append(it.LA, c14LAp{Neg: pt[0] == 'n', Key: t - real.NT})
+			}
+			if k := sym - real.NT; k >= 0 && k < real.NN {
+				isLA[k] = true
+				sys.Alts[k] = [][]c14Item{{it}}
+			}
+		}
+	}
+	for _, r := range real.Rules {
+		k := r.LHS - real.NT
+		if k < 0 || k >= real.NN || isLA[k] {
+			continue
+		}
+		items := []c14Item{}
+		for _, x := range r.RHS {
+			if x < real.NT {
+				items = append(items, c14Item{Term: x})
+			} else {
+				items = append(items, c14Item{Key: x - real.NT})
+			}
+		}
+		sys.Alts[k] = append(sys.Alts[k], items)
+	}
+	return sys
+}
+
+// c14SemanticPred: as c14Semantic for grammars with runtime lookahead predicates: both sides are run through the
+// position-based recogniser (template system built from the SOURCE semantics vs the compiled rules, in which every
+// lookahead nonterminal tests its instantiated target).
+func c14SemanticPred(g *c14Gram, s *c14Sem, real *Gram, la string, L int) (string, string) {
+	if len(real.Inputs) < len(g.Inputs) {
+		return "inputs", fmt.Sprintf("%d inputs declared, %d instantiated", len(g.Inputs), len(real.Inputs))
+	}
+	rs := c14RealSys(real, la)
+	spl, ok1 := s.sys.plain()
+	rpl, ok2 := rs.plain()
+	if !ok1 || !ok2 {
+		return "", "unstratified"
+	}
+	var bad, why string
+	real.AllStrings(L, func(w []int) bool {
+		st := s.sys.ends(w, spl)
+		rt := rs.ends(w, rpl)
+		for k := range g.Inputs {
+			sk := s.index[fmt.Sprint(g.Inputs[k].NT, make([]int, len(g.Params)))]
+			rk := real.Inputs[k].Sym - real.NT
+			want := st[sk][0]&(1<<uint(len(w))) != 0
+			got := rk >= 0 && rk < len(rt) && rt[rk][0]&(1<<uint(len(w))) != 0
+			if want != got {
+				for _, t := range w {
+					bad += c14TermName(t)
+				}
+				if bad == "" {
+					bad = "<empty string>"
+				}
+				if want {
+					why = fmt.Sprintf("input %s: `%s` is in the template language at the default valuation (lookahead predicates evaluated on the template of their target) but is NOT accepted by the instantiated rules (predicates evaluated on the instantiated target)", g.NTs[g.Inputs[k].NT].Name, bad)
+				} else {
+					why = fmt.Sprintf("input %s: `%s` is accepted by the instantiated rules (predicates evaluated on the instantiated target) but is NOT in the template language at the default valuation", g.NTs[g.Inputs[k].NT].Name, bad)
+				}
+				return false
+			}
+		}
+		return true
+	})
+	return bad, why
 }
 
 func c14WorkerMain(c *Ctx) {
@@ -627,7 +913,8 @@ func (w *c14Worker) call(text string) string {
 // ---- generator ----
 
 type c14Cfg struct {
-	bad float64 // probability of each deliberately invalid choice
+	bad  float64 // probability of each deliberately invalid choice
+	pred bool    // predicate family: runtime lookahead predicates `(?= X)` with templated targets, no lookahead flags
 }
 
 func c14GenPred(r *rand.Rand, g *c14Gram, avail []int) (*c14Pred, string) {
@@ -694,6 +981,12 @@ func c14Gen(r *rand.Rand, cfg c14Cfg) *c14Gram {
 			nLA = 2
 		}
 	}
+	if cfg.pred {
+		nLA = 0
+		if nGlobal == 0 {
+			nGlobal = 1
+		}
+	}
 	for i := 0; i < nGlobal; i++ {
 		g.Params = append(g.Params, c14Param{Name: string(rune('A' + i)), Dflt: r.Intn(3) - 1, Global: true})
 	}
@@ -717,7 +1010,7 @@ func c14Gen(r *rand.Rand, cfg c14Cfg) *c14Gram {
 	}
 	// by-name mode: most nonterminals declare an inline `flag X = v` of their own (one parameter index each),
 	// references between them mostly leave X out (propagation by NAME), its value is made visible
-	byName := r.Intn(5) == 0
+	byName := r.Intn(5) == 0 || (cfg.pred && r.Intn(4) != 0)
 	if byName {
 		g.Feat["by-name mode"] = true
 	}
@@ -920,7 +1213,7 @@ func c14Gen(r *rand.Rand, cfg c14Cfg) *c14Gram {
 				stack = stack[:len(stack)-1]
 				for _, a := range g.NTs[n].Alts {
 					for _, sy := range a.RHS {
-						if sy.Term == 0 && !reach[sy.NT] {
+						if sy.Term == 0 && sy.Look == nil && !reach[sy.NT] {
 							reach[sy.NT] = true
 							stack = append(stack, sy.NT)
 						}
@@ -951,6 +1244,130 @@ func c14Gen(r *rand.Rand, cfg c14Cfg) *c14Gram {
 			// keep a terminal-only last alternative last
 			al := g.NTs[cn].Alts
 			g.NTs[cn].Alts = append(al[:len(al)-1:len(al)-1], alt, al[len(al)-1])
+		}
+	}
+	// predicate family: `(?= X<args> & !Y)` in front of / between the symbols of alternatives. Targets are templated
+	// nonterminals; nothing reachable from a target gets a predicate (two strata), arguments as for any reference
+	// (explicit, by name, by default).
+	if cfg.pred {
+		g.Pred = true
+		g.Feat["lookahead predicates"] = true
+		closure := func(root int) map[int]bool {
+			seen := map[int]bool{root: true}
+			st := []int{root}
+			for len(st) > 0 {
+				n := st[len(st)-1]
+				st = st[:len(st)-1]
+				for _, a := range g.NTs[n].Alts {
+					for _, sy := range a.RHS {
+						if sy.Term == 0 && sy.Look == nil && !seen[sy.NT] {
+							seen[sy.NT] = true
+							st = append(st, sy.NT)
+						}
+					}
+				}
+			}
+			return seen
+		}
+		var cands []int
+		for n := nIn; n < nNT; n++ {
+			cl := closure(n)
+			inp := false
+			for i := 0; i < nIn; i++ {
+				inp = inp || cl[i]
+			}
+			if !inp && (len(g.NTs[n].Params) > 0 || r.Intn(4) == 0) {
+				cands = append(cands, n)
+			}
+		}
+		r.Shuffle(len(cands), func(i, j int) { cands[i], cands[j] = cands[j], cands[i] })
+		if len(cands) > 2 {
+			cands = cands[:1+r.Intn(2)]
+		}
+		plain := map[int]bool{}
+		for _, t := range cands {
+			for k := range closure(t) {
+				plain[k] = true
+			}
+		}
+		for n := range g.NTs {
+			if plain[n] || len(cands) == 0 {
+				continue
+			}
+			// an alternative whose body is copied from a terminal-only alternative of the target, so that the outcome
+			// of the predicate decides whether it applies: `(?= X) 'p' 'x'` / `(?= !X) 'p' 'x'` for `X<T>: [T] 'p' 'x' | …`
+			for _, t := range cands {
+				if r.Intn(5) == 0 {
+					continue
+				}
+				okArgs := true
+				for _, p := range g.NTs[t].Params {
+					same := false
+					for _, q := range g.NTs[n].Params {
+						same = same || g.Params[q].Name == g.Params[p].Name
+					}
+					okArgs = okArgs && (same || g.Params[p].Dflt >= 0)
+				}
+				var bodies [][]c14Sym
+				for _, ta := range g.NTs[t].Alts {
+					tonly := len(ta.RHS) > 0
+					for _, sy := range ta.RHS {
+						tonly = tonly && sy.Term > 0
+					}
+					if tonly && (ta.Pred != nil || r.Intn(3) == 0) {
+						bodies = append(bodies, ta.RHS)
+					}
+				}
+				if !okArgs || len(bodies) == 0 {
+					continue
+				}
+				body := bodies[r.Intn(len(bodies))]
+				alt := c14Alt{RHS: []c14Sym{{Look: []c14LookRef{{Neg: r.Intn(3) == 0, NT: t}}}}}
+				alt.RHS = append(alt.RHS, body...)
+				if r.Intn(3) == 0 {
+					alt.RHS = append(alt.RHS, c14Sym{Term: 1 + r.Intn(g.NT-1)})
+				}
+				al := g.NTs[n].Alts
+				g.NTs[n].Alts = append(al[:len(al)-1:len(al)-1], alt, al[len(al)-1])
+				g.Feat["predicate on a copied body"] = true
+			}
+			for ai := range g.NTs[n].Alts {
+				a := &g.NTs[n].Alts[ai]
+				if len(a.RHS) == 0 || r.Intn(5) >= 3 {
+					continue
+				}
+				// targets all of whose parameters can be left out here (same-named parameter of this nonterminal or a default)
+				var okT []int
+				for _, t := range cands {
+					ok := true
+					for _, p := range g.NTs[t].Params {
+						same := false
+						for _, q := range g.NTs[n].Params {
+							same = same || g.Params[q].Name == g.Params[p].Name
+						}
+						ok = ok && (same || g.Params[p].Dflt >= 0)
+					}
+					if ok || bad() {
+						okT = append(okT, t)
+					}
+				}
+				if len(okT) == 0 {
+					continue
+				}
+				var look []c14LookRef
+				for k, cnt := 0, 1+r.Intn(4)/3; k < cnt; k++ {
+					t := okT[r.Intn(len(okT))]
+					// `lookahead_predicate: '!'? symref<~Args>`: no explicit arguments, everything by name / by default
+					look = append(look, c14LookRef{Neg: r.Intn(3) == 0, NT: t})
+				}
+				pos := 0
+				if r.Intn(3) == 0 {
+					pos = r.Intn(len(a.RHS))
+				}
+				rhs := append([]c14Sym(nil), a.RHS[:pos]...)
+				rhs = append(rhs, c14Sym{Look: look})
+				a.RHS = append(rhs, a.RHS[pos:]...)
+			}
 		}
 	}
 	// lookahead arguments: targets that can use the flag (directly or through their first symbols)
@@ -1077,6 +1494,176 @@ func c14Gen(r *rand.Rand, cfg c14Cfg) *c14Gram {
 	return g
 }
 
+// c14GenLAFam: the lookahead-FLAG family. Two or three lookahead flags; leaf nonterminals look at subsets of them in
+// predicates of terminal-only alternatives; middle nonterminals have several alternatives that START with references
+// pinning DIFFERENT flags (`C<~V> … | D<+W> | E`) in random order; a top nonterminal passes its context through; the
+// input supplies every flag to every user somewhere (`'t' D<+V>`) and enters the chain with different pins.
+func c14GenLAFam(r *rand.Rand) *c14Gram {
+	g := &c14Gram{Feat: map[string]bool{"lookahead": true, "lookahead-flag family": true, "pred": true}}
+	g.NT = 4 + r.Intn(2)
+	nF := 2 + r.Intn(4)/3
+	for i := 0; i < nF; i++ {
+		d := -1
+		if r.Intn(3) == 0 {
+			d = 0
+		}
+		g.Params = append(g.Params, c14Param{Name: string(rune('V' + i)), Dflt: d, LA: true, Global: true})
+	}
+	term := func() c14Sym { return c14Sym{Term: 1 + r.Intn(g.NT-1)} }
+	pin := func(fs []int, p float64) []c14Arg {
+		var args []c14Arg
+		for _, f := range fs {
+			if r.Float64() < p {
+				args = append(args, c14Arg{Param: f, X: r.Intn(2), Style: r.Intn(2)})
+			}
+		}
+		return args
+	}
+	nLeaf := 2 + r.Intn(2)
+	nMid := 1 + r.Intn(2)
+	// indices: 0 = input, 1 = top, 2.. = middles, then leaves
+	mid0, leaf0 := 2, 2+nMid
+	nNT := leaf0 + nLeaf
+	g.NTs = make([]c14NT, nNT)
+	uses := make([][]int, nNT) // flags a nonterminal accepts (own predicates + unpinned flags of its leading references)
+	for l := 0; l < nLeaf; l++ {
+		n := leaf0 + l
+		nt := c14NT{Name: fmt.Sprintf("N%d", n)}
+		for f := 0; f < nF; f++ {
+			if r.Intn(3) != 0 {
+				uses[n] = append(uses[n], f)
+				pr := &c14Pred{Op: 'E', P: f, V: 1}
+				txt := g.Params[f].Name
+				if r.Intn(4) == 0 {
+					pr = &c14Pred{Op: 'N', Sub: []*c14Pred{pr}}
+					txt = "!" + txt
+				}
+				alt := c14Alt{Pred: pr, PredText: txt, RHS: []c14Sym{term()}}
+				if r.Intn(3) == 0 {
+					alt.RHS = append(alt.RHS, term())
+				}
+				nt.Alts = append(nt.Alts, alt)
+			}
+		}
+		nt.Alts = append(nt.Alts, c14Alt{RHS: []c14Sym{term()}})
+		g.NTs[n] = nt
+	}
+	union := func(a, b []int) []int {
+		for _, x := range b {
+			if !c14Has(a, x) {
+				a = append(a, x)
+			}
+		}
+		return a
+	}
+	unpinned := func(fs []int, args []c14Arg) []int { // what flows up through a leading reference (step 1 masks the pinned flags)
+		var out []int
+		for _, f := range fs {
+			pinned := false
+			for _, a := range args {
+				pinned = pinned || a.Param == f
+			}
+			if !pinned {
+				out = append(out, f)
+			}
+		}
+		return out
+	}
+	for m := nMid - 1; m >= 0; m-- {
+		n := mid0 + m
+		nt := c14NT{Name: fmt.Sprintf("N%d", n)}
+		for a, na := 0, 2+r.Intn(2); a < na; a++ {
+			t := leaf0 + r.Intn(nLeaf)
+			if m+1 < nMid && r.Intn(3) == 0 {
+				t = mid0 + m + 1
+			}
+			lead := c14Sym{NT: t, Args: pin(uses[t], 0.45)}
+			alt := c14Alt{RHS: []c14Sym{lead}}
+			if r.Intn(2) == 0 {
+				alt.RHS = append(alt.RHS, term())
+			}
+			if r.Intn(4) == 0 { // a second, non-leading reference
+				t2 := leaf0 + r.Intn(nLeaf)
+				alt.RHS = append(alt.RHS, c14Sym{NT: t2, Args: pin(uses[t2], 0.3)})
+			}
+			nt.Alts = append(nt.Alts, alt)
+			uses[n] = union(uses[n], unpinned(uses[t], lead.Args))
+		}
+		// two leading references that pin DIFFERENT flags, the second target also accepting the first flag from its
+		// context: `C<~V> … | D<+W>` (both orders)
+		if r.Intn(5) < 3 {
+			v := r.Intn(nF)
+			wf := (v + 1 + r.Intn(nF-1)) % nF
+			var t1s, t2s []int
+			for t := leaf0; t < nNT; t++ {
+				if c14Has(uses[t], v) {
+					t1s = append(t1s, t)
+					if c14Has(uses[t], wf) {
+						t2s = append(t2s, t)
+					}
+				}
+			}
+			if len(t1s) > 0 && len(t2s) > 0 {
+				l1 := c14Sym{NT: t1s[r.Intn(len(t1s))], Args: []c14Arg{{Param: v, X: r.Intn(2), Style: r.Intn(2)}}}
+				l2 := c14Sym{NT: t2s[r.Intn(len(t2s))], Args: []c14Arg{{Param: wf, X: r.Intn(2), Style: r.Intn(2)}}}
+				a1 := c14Alt{RHS: []c14Sym{l1, term()}}
+				a2 := c14Alt{RHS: []c14Sym{l2}}
+				if r.Intn(2) == 0 {
+					a2.RHS = append(a2.RHS, term())
+				}
+				pair := []c14Alt{a1, a2}
+				if r.Intn(4) == 0 {
+					pair = []c14Alt{a2, a1}
+				}
+				if r.Intn(2) == 0 {
+					nt.Alts = append(pair, nt.Alts...)
+				} else {
+					nt.Alts = append(nt.Alts, pair...)
+				}
+				uses[n] = union(uses[n], unpinned(uses[l1.NT], l1.Args))
+				uses[n] = union(uses[n], unpinned(uses[l2.NT], l2.Args))
+			}
+		}
+		g.NTs[n] = nt
+	}
+	// top
+	{
+		nt := c14NT{Name: "N1"}
+		for m := 0; m < nMid; m++ {
+			if m == 0 || r.Intn(2) == 0 {
+				lead := c14Sym{NT: mid0 + m, Args: pin(uses[mid0+m], 0.15)}
+				nt.Alts = append(nt.Alts, c14Alt{RHS: []c14Sym{lead}})
+				uses[1] = union(uses[1], unpinned(uses[mid0+m], lead.Args))
+			}
+		}
+		for f := 0; f < nF; f++ { // the top looks at flags itself: it accepts them whatever its leading references pin
+			if r.Intn(5) < 3 {
+				uses[1] = union(uses[1], []int{f})
+				nt.Alts = append(nt.Alts, c14Alt{Pred: &c14Pred{Op: 'E', P: f, V: 1}, PredText: g.Params[f].Name, RHS: []c14Sym{term()}})
+			}
+		}
+		g.NTs[1] = nt
+	}
+	// input
+	{
+		nt := c14NT{Name: "N0"}
+		for a, na := 0, 2+r.Intn(2); a < na; a++ {
+			nt.Alts = append(nt.Alts, c14Alt{RHS: []c14Sym{term(), {NT: 1, Args: pin(uses[1], 0.6)}}})
+		}
+		for n := 2; n < nNT; n++ {
+			for _, f := range uses[n] {
+				if n >= leaf0 && r.Intn(20) != 0 || n < leaf0 && r.Intn(3) == 0 {
+					nt.Alts = append(nt.Alts, c14Alt{RHS: []c14Sym{term(), {NT: n, Args: []c14Arg{{Param: f, X: map[bool]int{true: 1, false: 0}[r.Intn(4) != 0]}}}}})
+				}
+			}
+		}
+		nt.Alts = append(nt.Alts, c14Alt{RHS: []c14Sym{term()}})
+		g.NTs[0] = nt
+	}
+	g.Inputs = []c14In{{NT: 0, Eoi: true}}
+	return g
+}
+
 // ---- the fixed witness of the finding ----
 
 const c14DeadToken = "[C14-dead-instance-epsilon]"
@@ -1176,7 +1763,17 @@ func c14ShortClass(g *c14Gram) bool {
 	return false
 }
 
+// c14SplitLA separates the optional `la=…` token from the six protocol tokens.
+func c14SplitLA(p string) (string, string) {
+	f := strings.Fields(p)
+	if len(f) == 7 && strings.HasPrefix(f[6], "la=") {
+		return strings.Join(f[:6], " "), strings.TrimPrefix(f[6], "la=")
+	}
+	return p, ""
+}
+
 func c14ParseProto(p string) (*Gram, bool) {
+	p, _ = c14SplitLA(p)
 	f := strings.Fields(p)
 	if len(f) != 6 {
 		return nil, false
@@ -1286,7 +1883,11 @@ func c14(c *Ctx) {
 		"&& and || (3/5 of the alternatives of parametrized nonterminals), references with arguments `+P`, `~P`, `P: true|false`, `P: Q`, `P`, omitted (propagated by name " +
 		"or defaulted; in 1 of 5 grammars most nonterminals declare their own inline `flag X = v`, references between them mostly omit it and `[X]`/`[!X]` guard terminal-only " +
 		"alternatives), in 2 of 5 grammars alternatives (conditional ones more often) carry `%prec 't'` (with %left/%right/%nonassoc declarations), `-> Node` and state markers " +
-		"`.m` in any combination (text only: they must not change the rules), lookahead arguments placed preferably where the flag can be used; in 9 of 10 grammars every nonterminal is made reachable from an input; a small fraction of deliberately invalid choices (undeclared parameter in a " +
+		"`.m` in any combination (text only: they must not change the rules), lookahead arguments placed preferably where the flag can be used; in 9 of 10 grammars every nonterminal is made reachable from an input; " +
+		"2 grammars in 10 come from the lookahead-FLAG family (2-3 flags, leaves looking at subsets of them, middle nonterminals whose alternatives start with references pinning " +
+		"different flags `C<~V> … | D<+W> | E` in random order, every flag supplied to its users somewhere); 2 in 10 from the lookahead-PREDICATE family (`(?= X<args> & !Y)` with templated " +
+		"targets, arguments explicit / by name / by default, no lookahead flags; compared semantically only, with a position-based recogniser that evaluates each predicate on the template of " +
+		"its target resp. on the instantiated target of the compiled lookahead nonterminal, strings up to length 4-5); a small fraction of deliberately invalid choices (undeclared parameter in a " +
 		"predicate, parametrized input, uninitialized parameter, unusable lookahead argument, nullable nonterminal on a lookahead path). Each grammar is compiled by the real " +
 		"compiler.Compile in a child process (answers ok+rules / err / fatal). (1) `inst`: status and instantiated rules vs the Lean mirror pipeline, up to nonterminal " +
 		"naming and block order, and the mirror's lookahead-propagation certificate (hypothesis of C14_propagate_args_sound_partial) must hold. (2) for every ok grammar every terminal string up to length 5 (6 with two terminals) is tested: template semantics at the default valuation " +
@@ -1376,12 +1977,62 @@ func c14(c *Ctx) {
 		if i%7 == 3 {
 			cfg.bad = 0.06
 		}
-		g := c14Gen(c.Rng, cfg)
+		var g *c14Gram
+		switch {
+		case i%10 == 7 || i%10 == 4:
+			g = c14GenLAFam(c.Rng)
+		case i%10 == 2 || i%10 == 8:
+			cfg.pred = true
+			g = c14Gen(c.Rng, cfg)
+		default:
+			g = c14Gen(c.Rng, cfg)
+		}
 		name := "c14g"
 		text := g.TM(name)
 		ans := w.call(text)
-		src := g.Proto()
 		c.Debugf("%s", text)
+		if g.Pred {
+			// predicate family: no index-level protocol form; semantic comparison only
+			switch {
+			case ans == "fatal":
+				c.Count("predicate family: status fatal")
+				c.Violate("the compiler exits (log.Fatal) on a grammar with lookahead predicates on templated targets", c14OneLine(text))
+				continue
+			case !strings.HasPrefix(ans, "ok "):
+				c.Count("predicate family: status err"); if os.Getenv("C14_ERRDBG") != "" { c.Count("PERR " + ans[:min(len(ans), 90)]) }
+				continue
+			}
+			pproto, la := c14SplitLA(strings.TrimPrefix(ans, "ok "))
+			real, ok := c14ParseProto(pproto)
+			if !ok {
+				continue
+			}
+			c.Count("predicate family: status ok")
+			for f := range g.Feat {
+				c.Count("feature " + f)
+			}
+			s := g.sem()
+			if s.anyDead() && deadDefect {
+				c.Count("dead-instance grammars")
+				continue
+			}
+			L := 4
+			if g.NT <= 4 {
+				L = 5
+			}
+			bad, why := c14SemanticPred(g, s, real, la, L)
+			switch {
+			case why == "unstratified":
+				c.Count("predicate family: unstratified (skipped)")
+			case why != "":
+				c.Count("predicate family: semantic comparisons")
+				c.Violate("template instantiation changed the language: "+why, c14OneLine(text)+" :: "+bad)
+			default:
+				c.Count("predicate family: semantic comparisons")
+			}
+			continue
+		}
+		src := g.Proto()
 		switch {
 		case ans == "fatal":
 			c.Count("status fatal")
@@ -1389,6 +2040,9 @@ func c14(c *Ctx) {
 			continue
 		case strings.HasPrefix(ans, "err"):
 			c.Count("status err")
+			if os.Getenv("C14_ERRDBG") != "" && g.Feat["lookahead-flag family"] {
+				c.Count("LERR " + ans[:min(len(ans), 90)])
+			}
 			c.Case("inst "+quirks+" "+src+" :: err", "match", "")
 			continue
 		case !strings.HasPrefix(ans, "ok "):
@@ -1396,7 +2050,7 @@ func c14(c *Ctx) {
 			c.Case("inst "+quirks+" "+src+" :: "+ans, "match", "")
 			continue
 		}
-		proto := strings.TrimPrefix(ans, "ok ")
+		proto, _ := c14SplitLA(strings.TrimPrefix(ans, "ok "))
 		real, ok := c14ParseProto(proto)
 		if !ok {
 			c.Case("inst "+quirks+" "+src+" :: unparsable", "match", "")
